@@ -27,7 +27,9 @@ def run(ctx, res):
         res.cannot("C10.R1", fn, "loop", "expected one token loop, found %d" % len(loops), loc)
         return
     loop = loops[0]
-    I = A.Interp(P, max_paths=2000)
+    helpers = [x["def_path"] for x in P.user_bodies() if x["kind"] == "Fn" and fshort(x).startswith("parser::") and x is not b and fshort(x) != "parser::parse"
+               and not any((T.callee(c) or "") == x["def_path"] for c in T.nodes(x["tree"], "call"))]
+    I = A.Interp(P, max_paths=4000, inline=helpers)
     I.lazy_locals = True
 
     def run_(J):
